@@ -26,11 +26,13 @@ const StructuredData& CachedSD::GetCache(const CacheIndex index) const  {
   return cachedElements.at(index);
 }
 
-const StructuredData& CachedSD::SaveCache(const CacheIndex index, StructuredData value) const {
+bool CachedSD::IsCacheFull() const noexcept {
   static constexpr CacheIndex cacheLimit = 100U;
-  if (size(cachedElements) >= cacheLimit) {
-    cachedElements.clear();
-  }
+  return size(cachedElements) >= cacheLimit;
+}
+
+const StructuredData& CachedSD::SaveCache(const CacheIndex index, StructuredData value) const {
+  // Note: cached elements are never dropped - references returned by iterators must stay valid
   cachedElements[index] = std::move(value);
   return cachedElements.at(index);
 }
@@ -45,6 +47,10 @@ SDPowerSet::Iterator::reference SDPowerSet::Iterator::operator*() const {
     auto newData = Factory::EmptySet();
     for (const auto& iter : itemIterators) {
       newData.ModifyB().AddElement(*iter);
+    }
+    if (boolean->IsCacheFull()) {
+      current = std::move(newData);
+      return current;
     }
     return boolean->SaveCache(counter, newData);
   }
@@ -163,6 +169,10 @@ SDDecartian::Iterator::reference SDDecartian::Iterator::operator*() const {
     components.reserve(size(componentIters));
     for (const auto& compIter : componentIters) {
       components.emplace_back(*compIter);
+    }
+    if (decartian->IsCacheFull()) {
+      current = Factory::Tuple(components);
+      return current;
     }
     return decartian->SaveCache(counter, Factory::Tuple(components));
   }
